@@ -321,3 +321,46 @@ Definition ex_file : list (option gline) :=
   [None; mkgl None [115] [103] [43] [] 1 10; None; mkgl (Some [97]) [116] [103] [45] [] 5 9; mkgl None [116] [101] [45] [] 50 90].
 Example ex_file_ok : NoDup (real_ids (data_lines ex_file)) /\ length (st_db (load false 2 ex_file)) = 3%nat.
 Proof. split; [vm_compute; repeat constructor; simpl; tauto|vm_compute; reflexivity]. Qed.
+
+(** ---------- the repaired rule keeps start/stop = extremes of spans, for every file and block size ---------- *)
+Definition extent_ok (r : grow) : Prop :=
+  gr_start r = spans_min (gr_spans r) /\ gr_stop r = spans_max (gr_spans r).
+
+Lemma mk_grow_extent r : extent_ok (mk_grow r).
+Proof. unfold extent_ok, mk_grow; simpl. split; reflexivity. Qed.
+
+Lemma update_spans_extent db n new :
+  Forall extent_ok db -> Forall extent_ok (update_spans true db n new).
+Proof.
+  intros H. unfold update_spans. destruct new as [|s new]; [exact H|].
+  destruct (find (fun r => gname_eqb (gr_name r) n) db) as [r0|]; [|exact H].
+  apply Forall_forall. intros r Hr. apply in_map_iff in Hr. destruct Hr as [r' [<- Hr']].
+  destruct (gname_eqb (gr_name r') n).
+  - unfold extent_ok; simpl. split; reflexivity.
+  - rewrite Forall_forall in H. apply H. exact Hr'.
+Qed.
+
+Lemma fold_update_extent (again : list grec) : forall db,
+  Forall extent_ok db ->
+  Forall extent_ok (fold_left (fun db r => update_spans true db (g_name r) (g_spans r)) again db).
+Proof.
+  induction again as [|r again IH]; intros db H; simpl; [exact H|].
+  apply IH. apply update_spans_extent. exact H.
+Qed.
+
+Lemma block_step_extent st b :
+  Forall extent_ok (st_db st) -> Forall extent_ok (st_db (block_step true st b)).
+Proof.
+  intros H. unfold block_step. destruct (merged (data_lines b) (st_k st) []) as [data k'].
+  cbn [st_db]. apply Forall_app. split.
+  - apply fold_update_extent. exact H.
+  - apply Forall_forall. intros r Hr. apply in_map_iff in Hr. destruct Hr as [g [<- _]]. apply mk_grow_extent.
+Qed.
+
+Lemma load_fixed_extent N lines : Forall extent_ok (st_db (load true N lines)).
+Proof.
+  unfold load. generalize (blocks N lines). intros bs.
+  assert (H : Forall extent_ok (st_db st_init)) by constructor.
+  revert H. generalize st_init. induction bs as [|b bs IH]; intros st H; simpl; [exact H|].
+  apply IH. apply block_step_extent. exact H.
+Qed.
